@@ -1,7 +1,46 @@
 #!/usr/bin/env python3
 """Regenerates MANIFEST.json from the table below (kept as code so it is always schema-valid)."""
 import json, subprocess
+E_BE = "E-level backend harnesses = the real BackendReqHandler::handle_request (behind the library's Mutex adapter) over the ghost stream socket, one harness per request code x header-flag class (0x1, 0x9, and malformed classes 0xd / size+-1 on representatives); body bytes, 0..=2 attached descriptors, the three 64-bit negotiation words and the handler outcome symbolic; one request per run, started from an ARBITRARY negotiation state (inductive step)"
+E_FE = "E-level frontend harnesses = every public Frontend operation through the Arc<Mutex> handle over the ghost socket with symbolic arguments, symbolic cached feature words / queue limit / NEED_REPLY, and a peer reply of one concrete header class (conformant, foreign code, REPLY bit missing, version 2, reserved bit, size+1) with 40 symbolic body bytes and 0..=2 descriptors"
+TB = "Trusted: Kani 0.68/CBMC 6.11/CaDiCaL and Kani's model of Rust+std; the hand-transcribed spec oracle harness/spec.rs; the ghost kernel harness/ghost.rs as the contract of vmm-sys-util's raw_sendmsg/raw_recvmsg, close(2) and SCM_RIGHTS (stubs listed in each evidence file); allocation never fails. "
 CLAIMS = {
+ "C01": dict(
+   text="Bounded model checking of the real encode/decode code against an independent spec codec. "+E_FE+": bytes written == spec encoding for every argument value, descriptors = the caller's on the first send only. "+E_BE+": reply/ack bytes == spec encoding. U-level: extract_request_body<T> decodes each body type to exactly the wire bytes; request-code tables over all u32.",
+   note=TB+"Bounds: config payload 4 bytes (1 and 0 in thorough), memory table <= 2 regions, <= 2 descriptors, SHMEM config reply checked on its first 40 bytes only; 4096-byte payloads, 32 regions/descriptors, GPU and backend-initiated channels are not covered by this check yet. Header control words of peers are concrete classes at E level (fully symbolic at U level).",
+   design="4/C01"),
+ "C02": dict(
+   text="Composition over the shared spec encoding: frontend half ("+E_FE+": accepted calls write exactly spec::encode(op,args); locally rejected calls - queue index >= max, empty/zero-size region, bad handle, invalid config window, un-negotiated feature - write nothing) and backend half ("+E_BE+": a spec-encoded request reaches the handler behind the Mutex adapter exactly once, with equal argument words / payload bytes / descriptor numbers, and no call otherwise).",
+   note=TB+"'Same open file' is the SCM_RIGHTS contract of the stub (descriptor numbers 100+i installed by recvmsg are what the handler receives). Position in a longer session enters only through the negotiation words, which are symbolic. <= 2 regions, payload 4 bytes, <= 2 descriptors; RwLock/Arc adapters of vhost-user-backend are not part of this check.",
+   design="4/C02"),
+ "C03": dict(
+   text="Backend half ("+E_BE+" with symbolic handler outcome: value/flagged/failed): reply bytes are the spec encoding of exactly what the handler produced, in-band failure encodings included, handler errors reach the serving loop. Frontend half ("+E_FE+"): Ok(v) only for a reply to this request and v equals the replied values/bytes/descriptor; non-zero status, missing file, wrong-length config, foreign replies give Err; the call never reads past what a conformant peer sends while the peer stays connected (BLOCKED flag of the ghost) - this found and now guards the GET_CONFIG failure-reply hang (fixed, 1418ef6).",
+   note=TB+"Termination = all loops closed by unwinding assertions within the bound. GET_SHMEM_CONFIG's 2056-byte reply is outside the receive bound; GET_CONFIG with 4-byte window, concrete offset/flags.",
+   design="4/C03"),
+ "C04": dict(
+   text="Inductive step over the request server: from an arbitrary negotiation state (three symbolic 64-bit words, reply_ack flag tied by the invariant that the harness re-proves after the request), one request of each code: bytes consumed == 12 + declared size for well-formed requests, exactly one reply / one u64 ack (0 iff success) / nothing as the rule table prescribes, reply header = same code, version 1|REPLY, size = payload, written after the whole request was read, next state == reference next state. Because the step holds from every state, the k-th reply answers the k-th request for histories of any length.",
+   note=TB+"For the two messages that change the negotiation state the reference uses the post-update state. For rejected (malformed) requests the oracle accepts silence or one non-zero ack (the property is silent there). Header flag classes are concrete representatives; unknown/unserved codes included.",
+   design="4/C04"),
+ "C05": dict(
+   text=E_BE+": the handler is reached only if the request is protocol-valid (region/ring-address/config/enable/uuid/device-state rules, exact descriptor count) - with Kani's panic, overflow, bounds and pointer checks on every path. U-level: check_request_size, check_attached_files (all u32 codes), extract_request_body<T> for 8 body types, set_mem_table, set_config, handle_vring_fd_request with FULLY symbolic header words, sizes and 0..=3 files. Found and now guards F1 (single-region validator, 0aeef32) and F4 (no-fd flag with 2 files, f70f785).",
+   note=TB+"Daemon half (vhost-user-backend handler index/size arithmetic) is not in this check yet. Body <= 72 bytes, <= 2 regions, config payload <= 8 bytes, <= 3 descriptors; the 33-descriptor case is outside.",
+   design="4/C05"),
+ "C06": dict(
+   text=E_FE+": every reply-bearing and acknowledged operation returns Ok only if the bytes are a reply to that very request (REPLY flag, same code, valid header and body, descriptors exactly when defined) and never fabricates a value; plus recv_body segmentation harnesses. ",
+   note=TB+"Backend-to-frontend proxy, GPU proxy and the FrontendReqHandler server are not in this check yet. Reply control words are concrete classes at E level.",
+   design="4/C06"),
+ "C07": dict(
+   text="Frontend ("+E_FE+", full 64-bit cached feature words symbolic, so a gate on a wrong bit is distinguishable): a gated operation writes bytes only if its spec gating bit is set (offered PROTOCOL_FEATURES for the protocol-feature exchange, acked for ring enable, DEVICE_STATE for state transfer), else Err and zero sends. Backend ("+E_BE+"): handler reached only if the gating bit is in the acked words; GET_PROTOCOL_FEATURES reply always carries REPLY_ACK.",
+   note=TB+"Histories enter through the symbolic state words (any state a negotiation history can produce is included; the state update itself is C04). Proxy flags (shared object / shmem) not in this check yet.",
+   design="4/C07"),
+ "C08": dict(
+   text="Unit harnesses on the real Endpoint code over a ghost socket with delivery cuts / partial accepts: get_sub_iovs_offset vs a reference (all lengths), recv_header / recv_body / recv_data under 2-3 segment deliveries at representative cut positions and under end-of-stream after c bytes (Disconnected iff c==0, PartialMessage/short otherwise, never blocked), send_message under per-call accept limits and one injected EAGAIN (bytes once, in order, descriptors with byte 0 only). Found and now guards F3 (single-recvmsg body read, 07d4ebc).",
+   note=TB+"Cut positions / accept sizes are concrete representatives (symbolic cuts make the resume offsets symbolic and the loops unbounded for CBMC - measured OOM); messages <= 20 bytes; message shapes header, header+body, body; every message type is not enumerated because framing is type-generic.",
+   design="4/C08"),
+ "C09": dict(
+   text="Ghost descriptor table over the E-level backend runs (valid, invalid, over-stuffed requests with 0..=2 descriptors) and the frontend runs: every descriptor installed by recvmsg is either handed to the handler by value exactly once or closed exactly once by the library when handle_request / the frontend call returns; no double close; descriptors lent for transmission (RawFd / &EventFd arguments) are never closed. U-level: handle_vring_fd_request and check_attached_files with 0..=3 files.",
+   note=TB+"Model level: close(2)/OwnedFd::drop are stubs over the ghost table. Teardown at arbitrary points, >32 descriptors and vhost-user-backend's vring descriptor replacement are not in this check yet.",
+   design="4/C09"),
  "C20": dict(
    text="Bounded model checking (Kani/CBMC) of every VhostUserMsgValidator implementation against an independent reference predicate, with ALL bits of the message struct symbolic (no bound on values; the only bound is the struct size). UNSAT means the validator and the protocol rule agree on every bit pattern.",
    note="Trusted: Kani/CBMC/CaDiCaL; the hand-transcribed rules in harness/spec.rs. VhostUserShMemConfig and the GPU bodies have the default always-true validator and are not enumerated (only u64/vring-state/empty are asserted always-valid). xen feature off.",
